@@ -182,6 +182,8 @@ func TestC13(t *testing.T) {
 	rec := ev.Get("C13")
 	rec.Rule = "world x operation (generated queries and mutations, plus introspection selections with and without aliased name) repeated k times (quick 4..6, thorough 10..25) on one gateway and on 2..3 freshly built gateways (fresh maps), the fakes answering after drawn per-service delays, GOMAXPROCS in {1,4,16}; oracle: canonical data identical, multiset of errors identical, multiset of (service, query text, variables) sub-requests identical; non-trivial = the operation makes >=2 downstream calls or is an introspection over >=2 types; distinct by hash(case)"
 	defer census.dump("C13")
+	mixIntrospection = true
+	defer func() { mixIntrospection = false }()
 	rapid.Check(t, func(t *rapid.T) {
 		opType := ast.Query
 		if rapid.IntRange(0, 5).Draw(t, "mutation") == 0 {
